@@ -3121,7 +3121,7 @@ def groupby_scan(
     if not is_duck_array(array):
         array = np.asarray(array)
 
-    agg = AGGREGATIONS[func] if isinstance(func, str) else func
+    agg = AGGREGATIONS.get(func) if isinstance(func, str) else func
     if not isinstance(agg, Scan):
         raise ValueError(f"`func` must be the name of a scan or a Scan instance. Received {func!r}.")
     agg = copy.deepcopy(agg)
